@@ -50,7 +50,7 @@ def tasks(tier, seed):
     for (nx, ny) in shapes:
         for ms in (1, 2, 3):
             out.append({"id": "hq %dx%d minscaler=%d" % (nx, ny, ms), "harness": "hq", "args": (nx, ny, ms)})
-    for (nx, ny) in (shapes[:3] if q else shapes[:4]):
+    for (nx, ny) in (shapes[:3] if q else shapes[:3] + [(2, 2)]):
         out.append({"id": "ld %dx%d" % (nx, ny), "harness": "ld", "args": (nx, ny)})
     for prof in ("hq", "ld"):
         out.append({"id": "glue %s" % prof, "harness": "glue", "args": (prof, 2 if q else 3, 4 if q else 5)})
